@@ -27,7 +27,7 @@ MC_ORACLE static void acquired (void *m, int acq, int writer) {
 	(void) writer;
 	if (m != (void *) &mu || !acq) return;
 	if (me == 0) { victim_in_call = 0; return; }
-	if (victim_in_call && (int) mc_sleeps_of (0) >= LONG_WAIT_THRESHOLD + 1 && mc_sleeps_of (me) == 0)
+	if (victim_in_call && ((int) mc_sleeps_of (0) >= LONG_WAIT_THRESHOLD + 1 || (int) h_call_dequeues (0) >= LONG_WAIT_THRESHOLD + 1) && !h_call_has_waited (me))
 		mc_fail ("starvation avoidance broken: T%d acquired the mutex with a call that never waited, although the victim has been sent back to sleep %u times (threshold %d)", me, mc_sleeps_of (0), LONG_WAIT_THRESHOLD);
 }
 static void st_init (void) { nsync_mu_init (&mu); mc_name (&mu, sizeof mu, "mu"); mc_rwlock_listener = &acquired; }
@@ -38,7 +38,7 @@ static void st_thread (int me) {
 	if (me == 0) {
 		int reader = h_op[0][0][1] == 'r';
 		unsigned s;
-		mc_blocks_reset ();
+		mc_blocks_reset (); h_call_begin ();
 		victim_begin (reader);
 		if (reader) nsync_mu_rlock (&mu); else nsync_mu_lock (&mu);
 		s = mc_sleeps_of (0);
@@ -54,7 +54,7 @@ static void st_thread (int me) {
 		const char *o = h_op[me][k];
 		for (i = 0; i < o[1] - '0'; i++) {
 			int got = 1, writer = (o[0] != 'R');
-			mc_blocks_reset ();
+			mc_blocks_reset (); h_call_begin ();
 			if (o[0] == 'L') nsync_mu_lock (&mu); else if (o[0] == 'R') nsync_mu_rlock (&mu); else got = nsync_mu_trylock (&mu);
 			(void) mc_blocks ();
 			if (got) {
